@@ -2271,6 +2271,8 @@ fn create_parser_thread(
                     match dlt_msg_iterator.next() {
                         Some(msg) => {
                             messages_processed += 1;
+                            #[cfg(adlt_verif)]
+                            adlt::verif::parse_throttle(messages_processed as u64);
                             if let Err(e) =
                                 sync_sender_send_delay_if_full(msg, &tx_for_parse_thread)
                             // might block!
